@@ -95,6 +95,26 @@ func (s *Svc) Put(name string) uint32 {
 	return sec.Latest
 }
 
+// PutDup is what "put a, put b, put a" does on the real service when the first value is the active
+// one: two new versions, the second holding the very bytes of the version that is active now, and that
+// second one activated. Two versions with equal bytes are then told apart by number only.
+func (s *Svc) PutDup(name string) uint32 {
+	s.mu.Lock()
+	defer s.mu.Unlock()
+	sec := s.S[name]
+	if sec == nil {
+		return 0
+	}
+	cur := sec.Versions[sec.Active]
+	sec.Latest++
+	sec.Versions[sec.Latest] = Value(name, sec.Latest)
+	sec.Latest++
+	sec.Versions[sec.Latest] = cur
+	sec.Active = sec.Latest
+	s.Act[name] = append(s.Act[name], Activation{sec.Active, s.seq()})
+	return sec.Latest
+}
+
 // Back activates the previous version, if any.
 func (s *Svc) Back(name string) bool {
 	s.mu.Lock()
@@ -282,6 +302,12 @@ func (s *Svc) Key() string {
 	out := ""
 	for _, n := range names {
 		out += fmt.Sprintf("%s:a%d/l%d/f%d;", n, s.S[n].Active, s.S[n].Latest, s.fail[n])
+		// versions that hold the bytes of another version (PutDup): states that differ in them have different futures
+		for v := uint32(1); v <= s.S[n].Latest; v++ {
+			if val := s.S[n].Versions[v]; !strings.HasSuffix(val, Value(n, v)) {
+				out += fmt.Sprintf("v%d=%s;", v, val)
+			}
+		}
 	}
 	return out
 }
